@@ -47,12 +47,13 @@ Definition apply_pop (c : data) (p : pop) : data :=
   | PWrite off d => write_at c off d
   end.
 
+(** [f_pend]: modifications since the last fsync, NEWEST FIRST. *)
 Record file := { f_dur : data; f_pend : list pop }.
 
 Definition empty_file := {| f_dur := []; f_pend := [] |}.
 
 (** What a running process reads. *)
-Definition f_cur (f : file) : data := fold_left apply_pop (f_pend f) (f_dur f).
+Definition f_cur (f : file) : data := fold_right (fun p c => apply_pop c p) (f_dur f) (f_pend f).
 
 (** Split a pending write into one-element writes (a crash may cut a write). *)
 Fixpoint expand_write (off : N) (d : data) : list pop :=
@@ -75,24 +76,46 @@ Fixpoint scan (c : data) (ps : list pop) : list data :=
 
 (** Possible contents of the file after a crash. *)
 Definition crash_contents (f : file) : list data :=
-  scan (f_dur f) (flat_map expand (f_pend f)).
+  scan (f_dur f) (flat_map expand (rev (f_pend f))).
 
-Definition dir := path -> option N.
+(** Finite maps as association lists, overwritten in place (a trace of 10^5
+    writes keeps the tables a handful of entries long). *)
+Definition amap (A : Type) := list (N * A).
+
+Fixpoint aget {A} (m : amap A) (k : N) : option A :=
+  match m with
+  | [] => None
+  | (k', v) :: r => if k' =? k then Some v else aget r k
+  end.
+
+Fixpoint aset {A} (m : amap A) (k : N) (v : A) : amap A :=
+  match m with
+  | [] => [(k, v)]
+  | (k', v') :: r => if k' =? k then (k, v) :: r else (k', v') :: aset r k v
+  end.
+
+Fixpoint adel {A} (m : amap A) (k : N) : amap A :=
+  match m with
+  | [] => []
+  | (k', v') :: r => if k' =? k then adel r k else (k', v') :: adel r k
+  end.
+
+Definition dir := amap N.            (* path -> inode *)
 
 Record fdent := { fd_ino : N; fd_off : N; fd_wr : bool; fd_app : bool }.
 
 Record fs := {
   dir_cur : dir;
   dir_old : list dir;          (* every earlier directory, newest first *)
-  files : N -> file;           (* by inode *)
-  fds : N -> option fdent;
+  files : amap file;           (* by inode; absent = empty file *)
+  fds : amap fdent;
   next_ino : N
 }.
 
 Definition all_dirs (s : fs) : list dir := dir_cur s :: dir_old s.
 
-Definition upd {A} (m : N -> A) (k : N) (v : A) : N -> A :=
-  fun x => if x =? k then v else m x.
+Definition file_of (s : fs) (i : N) : file :=
+  match aget (files s) i with Some f => f | None => empty_file end.
 
 Record oflags := { o_creat : bool; o_excl : bool; o_trunc : bool; o_wr : bool; o_app : bool }.
 
@@ -113,72 +136,75 @@ Definition set_dir (s : fs) (d : dir) : fs :=
   {| dir_cur := d; dir_old := dir_cur s :: dir_old s; files := files s; fds := fds s; next_ino := next_ino s |}.
 
 Definition set_file (s : fs) (i : N) (f : file) : fs :=
-  {| dir_cur := dir_cur s; dir_old := dir_old s; files := upd (files s) i f; fds := fds s; next_ino := next_ino s |}.
+  {| dir_cur := dir_cur s; dir_old := dir_old s; files := aset (files s) i f; fds := fds s; next_ino := next_ino s |}.
 
-Definition set_fd (s : fs) (fd : N) (e : option fdent) : fs :=
-  {| dir_cur := dir_cur s; dir_old := dir_old s; files := files s; fds := upd (fds s) fd e; next_ino := next_ino s |}.
+Definition set_fd (s : fs) (fd : N) (e : fdent) : fs :=
+  {| dir_cur := dir_cur s; dir_old := dir_old s; files := files s; fds := aset (fds s) fd e; next_ino := next_ino s |}.
+
+Definition del_fd (s : fs) (fd : N) : fs :=
+  {| dir_cur := dir_cur s; dir_old := dir_old s; files := files s; fds := adel (fds s) fd; next_ino := next_ino s |}.
 
 Definition add_pend (s : fs) (i : N) (p : pop) : fs :=
-  let f := files s i in
-  set_file s i {| f_dur := f_dur f; f_pend := f_pend f ++ [p] |}.
+  let f := file_of s i in
+  set_file s i {| f_dur := f_dur f; f_pend := p :: f_pend f |}.
 
 Definition step (s : fs) (o : op) : fs :=
   match o with
   | Open fd p fl =>
-      match dir_cur s p with
+      match aget (dir_cur s) p with
       | Some i =>
           if o_creat fl && o_excl fl then s
           else
             let s1 := if o_trunc fl then add_pend s i (PTrunc 0) else s in
-            set_fd s1 fd (Some {| fd_ino := i; fd_off := 0; fd_wr := o_wr fl; fd_app := o_app fl |})
+            set_fd s1 fd ({| fd_ino := i; fd_off := 0; fd_wr := o_wr fl; fd_app := o_app fl |})
       | None =>
           if o_creat fl then
             let i := next_ino s in
-            let s1 := set_dir s (upd (dir_cur s) p (Some i)) in
+            let s1 := set_dir s (aset (dir_cur s) p i) in
             let s2 := {| dir_cur := dir_cur s1; dir_old := dir_old s1; files := files s1; fds := fds s1;
                          next_ino := i + 1 |} in
-            set_fd s2 fd (Some {| fd_ino := i; fd_off := 0; fd_wr := o_wr fl; fd_app := o_app fl |})
+            set_fd s2 fd ({| fd_ino := i; fd_off := 0; fd_wr := o_wr fl; fd_app := o_app fl |})
           else s
       end
   | Write fd d =>
-      match fds s fd with
+      match aget (fds s) fd with
       | Some e =>
           if fd_wr e then
-            let off := if fd_app e then nlen (f_cur (files s (fd_ino e))) else fd_off e in
+            let off := if fd_app e then nlen (f_cur (file_of s (fd_ino e))) else fd_off e in
             let s1 := add_pend s (fd_ino e) (PWrite off d) in
-            set_fd s1 fd (Some {| fd_ino := fd_ino e; fd_off := off + nlen d; fd_wr := true; fd_app := fd_app e |})
+            set_fd s1 fd ({| fd_ino := fd_ino e; fd_off := off + nlen d; fd_wr := true; fd_app := fd_app e |})
           else s
       | None => s
       end
   | PWriteAt fd off d =>
-      match fds s fd with
+      match aget (fds s) fd with
       | Some e => if fd_wr e then add_pend s (fd_ino e) (PWrite off d) else s
       | None => s
       end
   | Fsync fd =>
-      match fds s fd with
-      | Some e => let f := files s (fd_ino e) in
+      match aget (fds s) fd with
+      | Some e => let f := file_of s (fd_ino e) in
                   set_file s (fd_ino e) {| f_dur := f_cur f; f_pend := [] |}
       | None => s
       end
-  | Close fd => set_fd s fd None
+  | Close fd => del_fd s fd
   | Rename a b =>
-      match dir_cur s a with
-      | Some i => set_dir s (upd (upd (dir_cur s) a None) b (Some i))
+      match aget (dir_cur s) a with
+      | Some i => set_dir s (aset (adel (dir_cur s) a) b i)
       | None => s
       end
   | Unlink p =>
-      match dir_cur s p with
-      | Some _ => set_dir s (upd (dir_cur s) p None)
+      match aget (dir_cur s) p with
+      | Some _ => set_dir s (adel (dir_cur s) p)
       | None => s
       end
   | Ftruncate fd n =>
-      match fds s fd with
+      match aget (fds s) fd with
       | Some e => if fd_wr e then add_pend s (fd_ino e) (PTrunc n) else s
       | None => s
       end
   | TruncatePath p n =>
-      match dir_cur s p with
+      match aget (dir_cur s) p with
       | Some i => add_pend s i (PTrunc n)
       | None => s
       end
@@ -188,14 +214,14 @@ Definition run (s : fs) (t : list op) : fs := fold_left step t s.
 
 (** What is read at [p] through directory [d]: [None] = no such file. *)
 Definition view (d : dir) (s : fs) (p : path) : option data :=
-  match d p with Some i => Some (f_cur (files s i)) | None => None end.
+  match aget d p with Some i => Some (f_cur (file_of s i)) | None => None end.
 
 Definition live_view (s : fs) (p : path) : option data := view (dir_cur s) s p.
 
 (** What can be read at [p] after a crash now (and reboot). *)
 Definition crash_views (s : fs) (p : path) : list (option data) :=
-  flat_map (fun d => match d p with
-                     | Some i => map Some (crash_contents (files s i))
+  flat_map (fun d => match aget d p with
+                     | Some i => map Some (crash_contents (file_of s i))
                      | None => [None]
                      end) (all_dirs s).
 
@@ -213,7 +239,7 @@ Fixpoint visible_states (s : fs) (t : list op) (dst : path) : list (option data)
     moment it is renamed onto [dst]. *)
 Definition published (s : fs) (o : op) (dst : path) : list (option data) :=
   match o with
-  | Rename a b => if b =? dst then match dir_cur s a with Some _ => [live_view s a] | None => [] end else []
+  | Rename a b => if b =? dst then match aget (dir_cur s) a with Some _ => [live_view s a] | None => [] end else []
   | _ => []
   end.
 
@@ -232,13 +258,13 @@ Definition all_versions (s : fs) (t : list op) (dst : path) : list (option data)
 
 (** inode [i] is, or was in some earlier directory, what [dst] names *)
 Definition ever_at (s : fs) (dst : path) (i : N) : bool :=
-  existsb (fun d => match d dst with Some j => j =? i | None => false end) (all_dirs s).
+  existsb (fun d => match aget d dst with Some j => j =? i | None => false end) (all_dirs s).
 
 Definition synced (s : fs) (i : N) : bool :=
-  match f_pend (files s i) with [] => true | _ => false end.
+  match f_pend (file_of s i) with [] => true | _ => false end.
 
 Definition fd_target_ok (s : fs) (dst : path) (fd : N) : bool :=
-  match fds s fd with
+  match aget (fds s) fd with
   | Some e => negb (ever_at s dst (fd_ino e))
   | None => false        (* descriptor the parser lost track of: refuse *)
   end.
@@ -246,7 +272,7 @@ Definition fd_target_ok (s : fs) (dst : path) (fd : N) : bool :=
 Definition step_ok (dst : path) (s : fs) (o : op) : bool :=
   match o with
   | Open _ p fl =>
-      match dir_cur s p with
+      match aget (dir_cur s) p with
       | Some i => negb (ever_at s dst i) || negb (o_wr fl || o_trunc fl || o_app fl)
       | None => negb (o_creat fl && (p =? dst))       (* dst must not be created in place *)
       end
@@ -255,11 +281,11 @@ Definition step_ok (dst : path) (s : fs) (o : op) : bool :=
   | Rename a b =>
       negb (a =? dst) &&
       (if b =? dst then
-         match dir_cur s a with Some i => synced s i | None => true end
+         match aget (dir_cur s) a with Some i => synced s i | None => true end
        else true)
   | Unlink p => negb (p =? dst)
   | TruncatePath p _ =>
-      match dir_cur s p with Some i => negb (ever_at s dst i) | None => true end
+      match aget (dir_cur s) p with Some i => negb (ever_at s dst i) | None => true end
   end.
 
 Fixpoint trace_safe (dst : path) (s : fs) (t : list op) : bool :=
@@ -282,7 +308,7 @@ Fixpoint created (s : fs) (t : list op) : list path :=
   | [] => []
   | o :: t' =>
       (match o with
-       | Open _ p fl => match dir_cur s p with
+       | Open _ p fl => match aget (dir_cur s) p with
                         | None => if o_creat fl then [p] else []
                         | Some _ => []
                         end
@@ -292,7 +318,7 @@ Fixpoint created (s : fs) (t : list op) : list path :=
 
 Definition no_leftovers (keep : list path) (s : fs) (t : list op) : bool :=
   let fin := run s t in
-  forallb (fun p => match dir_cur fin p with
+  forallb (fun p => match aget (dir_cur fin) p with
                     | None => true
                     | Some _ => existsb (N.eqb p) keep
                     end) (created s t).
@@ -303,19 +329,19 @@ Definition no_leftovers (keep : list path) (s : fs) (t : list op) : bool :=
     (path, content); inode k+1 is the k-th entry. *)
 Fixpoint boot_dir (ents : list (path * data)) (k : N) : dir :=
   match ents with
-  | [] => fun _ => None
-  | (p, _) :: r => upd (boot_dir r (k + 1)) p (Some k)
+  | [] => []
+  | (p, _) :: r => aset (boot_dir r (k + 1)) p k
   end.
 
-Fixpoint boot_files (ents : list (path * data)) (k : N) : N -> file :=
+Fixpoint boot_files (ents : list (path * data)) (k : N) : amap file :=
   match ents with
-  | [] => fun _ => empty_file
-  | (_, c) :: r => upd (boot_files r (k + 1)) k {| f_dur := c; f_pend := [] |}
+  | [] => []
+  | (_, c) :: r => aset (boot_files r (k + 1)) k {| f_dur := c; f_pend := [] |}
   end.
 
 Definition boot (ents : list (path * data)) : fs :=
   {| dir_cur := boot_dir ents 1; dir_old := []; files := boot_files ents 1;
-     fds := fun _ => None; next_ino := 1 + nlen (map fst ents) |}.
+     fds := []; next_ino := 1 + nlen (map fst ents) |}.
 
 Definition fl_tmp := {| o_creat := true; o_excl := true; o_trunc := false; o_wr := true; o_app := false |}.
 Definition fl_trunc := {| o_creat := true; o_excl := false; o_trunc := true; o_wr := true; o_app := false |}.
